@@ -191,7 +191,24 @@ def _parser_functions(cx, port):
 def rule_pa_case(cx, rep, port):
     """every regex of the parser that matches a keyword is case-insensitive"""
     fnames = _parser_functions(cx, port)
-    sites = [s for s in regex_sites(cx, port) if s.func.name in fnames or getattr(s.func, 'qualname', '') in fnames]
+    pp = cx.port(port)
+
+    class _S(object):
+        pass
+    sites = []
+    seen_nodes = set()
+    for fname in sorted(fnames):
+        f_ = pp.func(cx.engine_mod(port), fname, required=False)
+        if f_ is None:
+            continue
+        # patterns applied in the function, inline or through constants compiled / written at module level
+        for pat, ic, node in regexes_of(cx, port, f_, depth=0):
+            if id(node) in seen_nodes:
+                continue
+            seen_nodes.add(id(node))
+            s_ = _S()
+            s_.pattern, s_.ignorecase, s_.node, s_.func = pat, ic, node, f_
+            sites.append(s_)
     n_kw = 0
     for s in sites:
         if s.pattern is None:
